@@ -21,6 +21,8 @@ type Stmt struct {
 	Else []Stmt `json:"else,omitempty"`
 	Has  bool   `json:"has_else,omitempty"`
 	Arg  string `json:"arg,omitempty"` // use: callee name; raw: text; set: rhs
+	Op   string `json:"op,omitempty"`   // raw: meaning for the harness's model
+	Arg2 string `json:"arg2,omitempty"` // raw: second operand for the model
 }
 
 // Pos is a 1-based line/column of a rendered statement's first token.
